@@ -221,7 +221,8 @@ def main(tier):
     shims.selftest_halfnorm()
     rep.functions = src_hash(mb.BaseMatcher.do_stop, mb.BaseMatching.first, mb.BaseMatching.next, sg.Segment, mb.BaseMatcher._create_start_nodes,
                              de.project, de.distance_point_to_segment, de.distance_segment_to_segment, de.distance)
-    budget = 100 if tier == 'quick' else 900
+    from symx.common import fit_budget
+    budget = fit_budget(len(real_instances(tier)), tier, 100, 100)
     rres = run_instances(run_instance, [('greal',) + i + (budget,) for i in real_instances(tier)])
     ares = gabs.run_all(rep, run_instance, abs_instances(tier), 60 if tier == 'quick' else 600, 16 * (40 if tier == 'quick' else 600))
     rep.bounds = dict(greal="layouts %s; T=2; observations symbolic (2-D on axis-parallel layouts or x symbolic on a fixed horizontal line); thresholds symbolic; three families; non-emitting on/off" % sorted(greal.LAYOUTS if tier != 'quick' else ['line2', 'corner3', 'oneway3', 'oneway4', 'zerolen3']),
